@@ -326,6 +326,48 @@ pub fn generate_w(stream: &str, seed: u64, n: usize, emit: &mut dyn FnMut(String
 		if !matches!(ops.last(), Some(WOp::Into | WOp::Drop)) {
 			ops.push(if rng.gen_bool(0.5) { WOp::Into } else { WOp::Drop });
 		}
+		// a block filled to *exactly* the threshold by the first k operations, then (often) a value
+		// that fails part-way: the boundary where "flush after" and "flush before" meet
+		let mut approx = approx;
+		if rng.gen_bool(0.3) {
+			let mut config = serde_avro_fast::ser::SerializerConfig::new(&schema);
+			let mut cum = vec![];
+			let mut total = 0usize;
+			for op in &ops {
+				match op {
+					WOp::Val(v) => match serde_avro_fast::to_datum_vec(v, &mut config) {
+						Ok(b) => {
+							total += b.len();
+							cum.push(total);
+						}
+						Err(_) => break,
+					},
+					WOp::Push(b, _) => {
+						total += b.len();
+						cum.push(total);
+					}
+					_ => break,
+				}
+			}
+			if let Some(&c) = cum.choose(&mut rng) {
+				approx = c;
+				let k = cum.iter().position(|&x| x == c).unwrap() + 1;
+				if rng.gen_bool(0.7) {
+					let mut vg = ValueGen {
+						rng: &mut rng,
+						schema: &raw,
+						allow_slow: false,
+						exotic: 0.0,
+						invalid: 0.6,
+						by_name_only: false,
+						maybe_invalid: false,
+						no_decimal_oracle: true,
+					};
+					let bad = WOp::Val(vg.gen(0, 0));
+					ops.insert(k.min(ops.len() - 1), bad);
+				}
+			}
+		}
 		let sched: Vec<SinkResp> = if stream == "ocfw-sink" {
 			let k = rng.gen_range(0..12);
 			(0..k)
@@ -598,6 +640,34 @@ pub fn crate_file(
 	w.into_inner().ok()
 }
 
+/// (offset of the count, of the size, of the data, end of the data) of every well-framed block
+fn block_offsets(file: &[u8]) -> Vec<(usize, usize, usize, usize)> {
+	let mut out = vec![];
+	let Some(view) = parse_view("null", file) else { return out };
+	// header length: everything before the first block
+	let blocks_len: usize = view
+		.blocks
+		.iter()
+		.map(|(c, data, _)| {
+			let mut h = vec![];
+			put_long(*c as i64, &mut h);
+			put_long(data.len() as i64, &mut h);
+			h.len() + data.len() + 16
+		})
+		.sum();
+	let mut pos = file.len() - view.trailing - blocks_len;
+	for (c, data, _) in &view.blocks {
+		let mut h = vec![];
+		put_long(*c as i64, &mut h);
+		let size_off = pos + h.len();
+		put_long(data.len() as i64, &mut h);
+		let data_off = pos + h.len();
+		out.push((pos, size_off, data_off, data_off + data.len()));
+		pos = data_off + data.len() + 16;
+	}
+	out
+}
+
 pub fn generate_r(stream: &str, seed: u64, n: usize, emit: &mut dyn FnMut(String)) {
 	let mut rng = rng_from(seed, stream);
 	let mut produced = 0;
@@ -673,6 +743,31 @@ pub fn generate_r(stream: &str, seed: u64, n: usize, emit: &mut dyn FnMut(String
 					let at = rng.gen_range(0..f.len());
 					f[at] ^= 1 << rng.gen_range(0..8);
 					v.push(("flip".to_string(), f));
+				}
+				// targeted damage of the framing itself: a block's object count or byte size made
+				// negative or huge, cuts inside the count / size varints, at the start of the data,
+				// and inside the sync marker
+				let offs = block_offsets(&file);
+				if !offs.is_empty() {
+					let (count_off, size_off, data_off, data_end) = offs[rng.gen_range(0..offs.len())];
+					let at = *[count_off, size_off].choose(&mut rng).unwrap();
+					let mut f = file.clone();
+					match rng.gen_range(0..3) {
+						0 => f[at] ^= 1,
+						1 => f[at] |= 0x80,
+						_ => f[at] = 0x7f,
+					}
+					v.push(("flip".to_string(), f));
+					let mut cuts = vec![count_off, size_off, data_off, data_end, data_end + 1, data_end + 15];
+					for o in size_off + 1..data_off {
+						cuts.push(o);
+					}
+					for _ in 0..3 {
+						let at = *cuts.choose(&mut rng).unwrap();
+						if at < file.len() {
+							v.push(("trunc".to_string(), file[..at].to_vec()));
+						}
+					}
 				}
 				v
 			}
